@@ -276,6 +276,9 @@ def gen_payload(rng, prog=()):
         op = s[0].upper()
         growth *= 2 if op in ("NETBIOS", "NETBIOSU") else 1.34 if op in ("BASE64", "BASE64URL") else 1
     cap = max(3, min(4096, int(16384 / growth)))
+    if growth <= 1.4 and rng.random() < 0.004:
+        # large outputs (a screenshot, a downloaded file): sizes around the 64 KB mark, where a block-wise codec would cut
+        return rng.randbytes(rng.choice([65535, 65536, 65537, 70001]))
     return rng.randbytes(rng.choice([0, 1, 2, 3, 15, 16, 17, 40, 40, rng.randrange(0, cap + 1)]))
 
 
